@@ -43,7 +43,11 @@ def handleCompile (st : St) (op : String) (j : Json) : Option (D (St × Json)) :
       return (st, ok (Json.mkObj [("parse", Json.str (match e with
         | .syntax => "syntax"
         | .unknownName => "unknownName"
-        | .mixed => "mixed"))]))
+        | .mixed => "mixed"
+        | .noToken => "noToken"
+        | .noNumber => "noNumber"
+        | .badInt => "badInt"
+        | .fuel => "fuel"))]))
     | .ok oe =>
       let d := compileDfa oe
       let reSame := match oe, specParse table expr with
